@@ -1094,7 +1094,7 @@ def run(ctx):
         # ---- (a), (c), (d) histories ----
         kinds = {"F": 0, "F-fin": 0, "F-strict": 0, "L": 0, "L-strict": 0}
         fams = {"gen": 0, "multi": 0, "corpus": 0, "edge": 0, "twins": 0}
-        nsteps = same_twice = ast_checked = ast_modified_allowed = per_func = exc_steps = hist_key_order = 0
+        nsteps = same_twice = ast_checked = ast_modified_allowed = per_func = exc_steps = hist_key_order = timeouts_skipped = 0
         counts_tot = {}
         coq_cases = []
         nontrivial = set()
@@ -1134,7 +1134,9 @@ def run(ctx):
                 def differs(r, i, ref=ref):
                     x = r["steps"][i]
                     return (x.get("res"), x.get("exc")) != (ref["res"], ref["exc"])
-                if (rec["res"], rec["exc"]) != (ref["res"], ref["exc"]):
+                if "Timeout" in ((rec["exc"] or [None])[0], (ref["exc"] or [None])[0]):
+                    timeouts_skipped += 1        # the time limit is a safety net of the harness (machine load), not an observation about pymwp
+                elif (rec["res"], rec["exc"]) != (ref["res"], ref["exc"]):
                     sub = shrink_history(steps, k, tmp, fresh, h["hashseed"], h["instrument"], differs)
                     failing.append({"what": "history: result after a history differs from the result in a fresh process",
                                     "sig": ["C13", "history"], "input": {"steps": [pub(s) for s in sub], "hashseed": h["hashseed"], "instrument": h["instrument"]},
@@ -1206,8 +1208,10 @@ def run(ctx):
         else:
             mism.append("model not built: reference-model correspondence not run")
         ntimeouts = sum(1 for f in fresh for r in f.values() if (r.get("exc") or [None])[0] == "Timeout")
-        if ntimeouts:
-            mism.append(f"{ntimeouts} fresh-process analyses exceeded the per-analysis time limit (none does on the unchanged tree)")
+        stats_timeouts = {"fresh": ntimeouts, "history_steps_skipped": timeouts_skipped}
+        if ntimeouts > max(3, len(jobs) // 20):
+            mism.append(f"{ntimeouts} of {len(jobs)} fresh-process analyses exceeded the per-analysis time limit of 25 s (termination is property C06's; "
+                        "this many is not machine load)")
         if nsteps and (counts_tot.get("corr_writes", 0) == 0 or nref_loops == 0):
             mism.append("generator degenerate: no corrected monomial observed " + str(counts_tot))
         lens = [len(h["steps"]) for h in histories]
@@ -1229,6 +1233,7 @@ def run(ctx):
                  "per_function_comparisons": per_func, "coq_model_cases": ncoq,
                  "refmodel_op_cases": nref_ops, "refmodel_loop_cases": nref_loops, "refmodel_loop_cases_captured_from_analyses": ncaptured,
                  "refmodel_skipped": ref_skipped,
+                 "harness_time_limits_hit": stats_timeouts,
                  "wall": {"histories_s": round(t_hist, 1), "fresh_s": round(t_fresh, 1), "total_s": round(time.time() - t0, 1)}}
     finally:
         shutil.rmtree(tmp, ignore_errors=True)
